@@ -37,6 +37,13 @@ CHECKS = {
              "line starts; full-lexer comments and non-logical newlines equal CPython tokenize's. A run that never saw some Tok variant is inconclusive.",
         note="Trusted: the spelling tables and gap regular expression in mon/checks/c05.py; CPython tokenize for comment/NL positions (LF-only texts).",
         design="§2 C05"),
+    "C14": dict(
+        technique="exhaustive small-scope runtime differential: every signature shape is converted by the real API and compared with the structure computed from the generator's description (unique integer defaults make the history unambiguous)",
+        text="All signatures within stated bounds (posonly<=1(2), args<=2, vararg, kwonly<=3, kwarg, every legal default subset, annotations, def/lambda) "
+             "go through to_/into_python_arguments, From, and back through into_arguments; positional order, names, annotations, kinds, each parameter's own "
+             "default, and the documented keyword-only ordering are checked. Exhaustive within the bounds.",
+        note="Trusted: the parser builds the per-parameter form correctly (checked against the generator's description first); default feature set only (conversion is todo!() under all-nodes-with-ranges).",
+        design="§2 C14"),
     "C15": dict(
         technique="in-process invariant monitor against a naive reference model, exhaustive small scope + seeded random",
         text="Every query of the line index, source-code view, universal-newline iterators (all next/next_back interleavings) and "
